@@ -30,20 +30,21 @@ import (
 )
 
 type world struct {
-	mu     sync.Mutex // short critical sections only; never held while parked
-	log    *verifsim.Log
-	res    *verifsim.Result
-	plan   *Plan
-	nodes  []*wnode
-	byIdx  map[int]*wiface
-	loop   []RouteW
-	faults []*faultState
-	ord    map[string]int // per-key call ordinals
-	holds  map[string]chan struct{}
-	latSeq int
-	ended  bool            // run is over: every hold is open
-	endC   chan struct{}   // closed at the very end of the run
-	ghosts map[int][]AddrW // interface indexes which now belong to some other interface
+	mu      sync.Mutex // short critical sections only; never held while parked
+	log     *verifsim.Log
+	res     *verifsim.Result
+	plan    *Plan
+	nodes   []*wnode
+	byIdx   map[int]*wiface
+	loop    []RouteW
+	faults  []*faultState
+	ord     map[string]int // per-key call ordinals
+	holds   map[string]chan struct{}
+	dialing map[int]*wiface // goroutine id -> interface whose real dial() is running
+	latSeq  int
+	ended   bool            // run is over: every hold is open
+	endC    chan struct{}   // closed at the very end of the run
+	ghosts  map[int][]AddrW // interface indexes which now belong to some other interface
 }
 
 type faultState struct {
@@ -585,6 +586,118 @@ func (ifc *wiface) dialFunc(mode system.DialerMode) func() (*system.DialContext,
 			IP: ll,
 		}, nil
 	}
+}
+
+// realDial wraps the real system.Dialer.dial (orig) for one interface: the
+// simulated kernel (worldKernel, below the seams of sim/systemseams) answers its
+// calls into the operating system; the wrapper only adds the dial.enter /
+// dial.exit events, the injected whole-attempt faults of the "dial" seam and the
+// per-interface duration of an attempt.
+func (ifc *wiface) realDial(orig func() (*system.DialContext, error)) func() (*system.DialContext, error) {
+	return func() (*system.DialContext, error) {
+		w := ifc.n.w
+		e := verifsim.Event{K: "dial.enter", Node: ifc.n.id, If: ifc.spec.Name}
+		f, _ := w.decide("dial", ifc.n.id, ifc.spec.Name, "")
+		e.F = faultTag(f)
+		ref := w.log.Add(e)
+		w.park(f)
+		// (see dialFunc for why an attempt takes a little while)
+		time.Sleep(time.Duration(1009*ifc.spec.Index+10007*ifc.n.id+13) * time.Nanosecond)
+		x := verifsim.Event{K: "dial.exit", Node: ifc.n.id, If: ifc.spec.Name, Ref: ref}
+		if f != nil && f.Err != "" {
+			w.fault("dial." + f.Err)
+			x.Err = f.Err
+			w.log.Add(x)
+			return nil, simErr(f.Err, "socket")
+		}
+		g := verifsim.Goid()
+		w.mu.Lock()
+		w.dialing[g] = ifc
+		w.mu.Unlock()
+		dctx, err := orig()
+		w.mu.Lock()
+		delete(w.dialing, g)
+		w.mu.Unlock()
+		if err != nil {
+			x.Err = "error: " + err.Error()
+			if errors.Is(err, system.ErrLinkNotReady) {
+				x.Err = "linknotready"
+			}
+			w.log.Add(x)
+			return nil, err
+		}
+		c := dctx.Conn.(*simConn)
+		x.Gen = c.gen
+		x.S = dctx.Interface.HardwareAddr.String()
+		x.V = int64(dctx.Interface.Index)
+		w.log.Add(x)
+		return dctx, nil
+	}
+}
+
+// worldKernel is the operating system below the real Dialer.dial.
+type worldKernel struct{ w *world }
+
+var _ system.SimOS = worldKernel{}
+
+func (k worldKernel) cur() *wiface {
+	k.w.mu.Lock()
+	defer k.w.mu.Unlock()
+	return k.w.dialing[verifsim.Goid()]
+}
+
+func (k worldKernel) InterfaceByName(name string) (*net.Interface, error) {
+	ifc := k.cur()
+	if ifc == nil {
+		return nil, fmt.Errorf("sim: interface lookup of %q outside a dial attempt", name)
+	}
+	k.w.mu.Lock()
+	defer k.w.mu.Unlock()
+	if ifc.down {
+		return nil, &net.OpError{Op: "route", Net: "ip+net", Addr: &net.IPAddr{}, Err: errors.New("no such network interface")}
+	}
+	return &net.Interface{
+		Index:        ifc.spec.Index,
+		MTU:          1500,
+		Name:         ifc.spec.Name,
+		HardwareAddr: ifc.mac,
+		Flags:        net.FlagUp | net.FlagBroadcast | net.FlagMulticast,
+	}, nil
+}
+
+func (k worldKernel) Addrs(*net.Interface) ([]net.Addr, error) {
+	ifc := k.cur()
+	if ifc == nil {
+		return nil, errors.New("sim: address lookup outside a dial attempt")
+	}
+	return []net.Addr{&net.IPNet{IP: net.ParseIP(ifc.spec.LL), Mask: net.CIDRMask(64, 128)}}, nil
+}
+
+func (k worldKernel) Listen(*net.Interface, ndp.Addr) (system.SimNDPConn, netip.Addr, error) {
+	ifc := k.cur()
+	if ifc == nil {
+		return nil, netip.Addr{}, errors.New("sim: socket outside a dial attempt")
+	}
+	w := k.w
+	w.mu.Lock()
+	ifc.gen++
+	c := &simConn{w: w, ifc: ifc, gen: ifc.gen}
+	ifc.conn = c
+	w.mu.Unlock()
+	w.log.Add(c.ev("sock.open"))
+	ll, _ := netip.ParseAddr(ifc.spec.LL)
+	return c, ll, nil
+}
+
+func (c *simConn) SetICMPFilter(*ipv6.ICMPFilter) error            { return nil }
+func (c *simConn) SetControlMessage(ipv6.ControlFlags, bool) error { return nil }
+func (c *simConn) JoinGroup(netip.Addr) error                      { return nil }
+func (c *simConn) LeaveGroup(netip.Addr) error                     { return nil }
+
+// Close is the end of a connection's socket.
+func (c *simConn) Close() error {
+	c.w.log.Add(c.ev("sock.close"))
+	return nil
 }
 
 // ------------------------------------------------------------------ rtnetlink
